@@ -303,7 +303,7 @@ def corr_plan(tier, seed):
     profiles = ['lifecycle', 'money', 'quota', 'authz', 'gov', 'govdelay', 'extreme', 'genesis', 'sessions']
     plan = []
     # the session-settlement paths need several settled sessions on one subscription: more seeds there
-    per = (lambda p: {'sessions': 6, 'genesis': 4}.get(p, 2)) if tier == 'quick' else (lambda p: {'sessions': 24, 'genesis': 20}.get(p, 12))
+    per = (lambda p: {'sessions': 6, 'genesis': 4, 'extreme': 3}.get(p, 2)) if tier == 'quick' else (lambda p: {'sessions': 24, 'genesis': 20}.get(p, 12))
     blocks = 90 if tier == 'quick' else 300
     step = 10 if tier == 'quick' else 100
     for i, p in enumerate(profiles):
@@ -513,6 +513,10 @@ TRUSTED_BASE = [
 ]
 
 
+MONEY_PANIC = re.compile(r'insufficient_deposit|negative_coin_amount|insufficient_funds|negative_amount')
+INDEX_PANIC = re.compile(r'invalid_key_length|_key_[0-9A-Fa-f]+_does_not_exist')
+
+
 def section_relevant(prop, m):
     proj = PROPS[prop].get('sections')
     if proj is None:
@@ -524,6 +528,16 @@ def section_relevant(prop, m):
             (m.get(side) or '').startswith(('reject:validate', 'reject:panic')) for side in ('impl', 'model')):
         # a message that one side refuses at the decoding / stateless-validation stage (address text,
         # field encoding) and the other side does not: the text and wire forms are C17's and C19's subject
+        return True
+    if m['kind'] == 'result' and prop in ('C01', 'C02', 'C05', 'C16') and (m.get('impl') or '').startswith('halt') \
+            and MONEY_PANIC.search(m.get('impl') or '') and not (m.get('model') or '').startswith('halt'):
+        # a block hook tried to take more from an escrow record (or the escrow account) than it holds, or
+        # computed a negative payment / refund: somebody was charged beyond what the deposit covers
+        return True
+    if m['kind'] == 'result' and prop == 'C09' and INDEX_PANIC.search(m.get('impl') or '') and not INDEX_PANIC.search(m.get('model') or ''):
+        # the implementation stopped with an internal error while reading an index / queue entry
+        # (malformed key, or an entry whose record is gone): C09's "never an internal error" and
+        # "every queue entry the block hooks will later consume points at a live record"
         return True
     if m['kind'] == 'result':
         opk = op.split()[0] if op else ''
@@ -549,6 +563,11 @@ def concrete_failure(prop, m):
     implementation?  Only where the model's answer is the property's specification (theorems of
     Props/<prop>) and the direction of the disagreement contradicts the property."""
     op = m.get('op') or ''
+    if prop in ('C01', 'C02', 'C05', 'C16') and m.get('kind') == 'result' and (m.get('impl') or '').startswith('halt') \
+            and MONEY_PANIC.search(m.get('impl') or '') and not (m.get('model') or '').startswith('halt'):
+        return True
+    if prop == 'C09' and m.get('kind') == 'result' and INDEX_PANIC.search(m.get('impl') or '') and not INDEX_PANIC.search(m.get('model') or ''):
+        return True
     if op.startswith('query') and prop in ('C13', 'C09'):
         # the model's answer to a listing is filter + page of the stored records (Props/C13, C09)
         return True
